@@ -84,6 +84,7 @@ OnStep ==
              \* ---- property conjuncts on the observed state
              Fail(~o.has_idx \/ \A k \in Keys : o.idx[k] # Absent => o.idx[k] \in SeqToSet(o.cas), "C04:dangling-reference"),
              Fail(o.casbad = <<>>, "C06:blob-bytes"),
+             Fail(o.casw = 0, "C06:in-place-write-under-cas"),
              UNION { RetFails(rets[i], seen1[rets[i].t]) : i \in 1..Len(rets) },
              \* ---- refinement
              Fail(pre \/ stuckW \/ stuckR, "DRIFT:model-thread-not-at-" \o Line.at),
